@@ -211,6 +211,21 @@ def _make_einfo():
         return BuildFailed(exc)
 
 
+def c12_retry(cls, args):
+    """Retry loop that gives up with the *first* error: the traceback of
+    the saved exception still holds this frame at the call below, which lies
+    after the ``raise saved`` statement this frame executes when it is
+    re-raised (a live frame that has moved on)."""
+    saved = None
+    for attempt in range(2):
+        if saved is not None:
+            raise saved
+        try:
+            c12_raise_here(cls, args)
+        except BaseException as exc:   # noqa
+            saved = exc
+
+
 def build_einfo(clsname, argi, depth):
     """Raise through a real call chain and build ExceptionInfo() inside the
     except block (what workloop does).  Returns (einfo, caught type, caught
@@ -225,6 +240,15 @@ def build_einfo(clsname, argi, depth):
             raise HarnessBug('runaway recursion gave %r' % (caught,))
         return (ei,) + caught + (RUNAWAY,)
     cls, args = CLASSES[clsname], ARGS[argi]
+    if depth == 'retry':
+        try:
+            c12_retry(cls, args)
+        except BaseException as exc:   # noqa
+            ei = _make_einfo()
+            caught = (type(exc), exc.args, real_tb_len(exc.__traceback__))
+        if caught[:2] != (cls, args):
+            raise HarnessBug('retry case produced %r' % (caught,))
+        return (ei,) + caught + (RAISER,)
     fn, fnargs = c12_entry(depth, cls, args)
     try:
         fn(*fnargs)
@@ -308,6 +332,7 @@ def cases_a():
     out = [(c, a, d) for c in CLASSES for a in range(len(ARGS))
            for d in DEPTHS_A]
     out.append(('RecursionError', None, 'rec'))
+    out += [(c, a, 'retry') for c in CLASSES for a in range(len(ARGS))]
     return out
 
 
